@@ -102,15 +102,30 @@ def skipped(res, msg: str) -> None:
 
 
 class Daemon:
-    def __init__(self, conf_text: str, env: dict | None = None, files: dict | None = None) -> None:
+    def __init__(self, conf_text: str, env: dict | None = None, files: dict | None = None, more_addrs: tuple = ()) -> None:
         self.dir = tempfile.mkdtemp(prefix='exaverif-daemon-', dir='/var/tmp')
         os.chmod(self.dir, 0o755)
         self.proc = None
-        self.listener = socket.socket(socket.AF_INET, socket.SOCK_STREAM)
-        self.listener.setsockopt(socket.SOL_SOCKET, socket.SO_REUSEADDR, 1)
-        self.listener.bind(('127.0.0.2', 0))
-        self.listener.listen(8)
-        self.port = self.listener.getsockname()[1]
+        for attempt in range(20):
+            self.listener = socket.socket(socket.AF_INET, socket.SOCK_STREAM)
+            self.listener.setsockopt(socket.SOL_SOCKET, socket.SO_REUSEADDR, 1)
+            self.listener.bind(('127.0.0.2', 0))
+            self.listener.listen(8)
+            self.port = self.listener.getsockname()[1]
+            # the daemon knows one destination port for all its neighbors: further peers listen on the same number
+            self.more = {}
+            try:
+                for a in more_addrs:
+                    ls = socket.socket(socket.AF_INET, socket.SOCK_STREAM)
+                    ls.setsockopt(socket.SOL_SOCKET, socket.SO_REUSEADDR, 1)
+                    ls.bind((a, self.port))
+                    ls.listen(8)
+                    self.more[a] = ls
+                break
+            except OSError:
+                self.listener.close()
+                for ls in self.more.values():
+                    ls.close()
         for name, text in dict({'sink.py': SINK, 'player.py': PLAYER}, **(files or {})).items():
             with open(os.path.join(self.dir, name), 'w') as f:
                 f.write(text)
@@ -144,10 +159,11 @@ class Daemon:
         self.stderr = open(self.path('stderr'), 'w')
         self.proc = subprocess.Popen([PY, '-m', 'exabgp', 'server', self.path('conf')], env=self.env, stdout=self.stderr, stderr=self.stderr, cwd=self.dir, start_new_session=True)
 
-    def accept(self, timeout: float = 60.0) -> 'Peer':
-        self.listener.settimeout(timeout)
+    def accept(self, timeout: float = 60.0, addr: str | None = None) -> 'Peer':
+        listener = self.more[addr] if addr else self.listener
+        listener.settimeout(timeout)
         try:
-            conn, _ = self.listener.accept()
+            conn, _ = listener.accept()
         except (socket.timeout, TimeoutError):
             raise Inconclusive('the daemon never connected: ' + self.tail())
         return Peer(conn)
@@ -213,6 +229,8 @@ class Daemon:
                 pass
         try:
             self.listener.close()
+            for ls in self.more.values():
+                ls.close()
         except OSError:
             pass
         try:
